@@ -14,8 +14,8 @@ Local Open Scope N_scope.
     stored client state, consensus states or recent-signer keys in any way - in particular every state a
     validated genesis can import) and EVERY proposal accepted by decoding + ValidateBasic, the handler
     of /repo HEAD returns Ok or Err - never Panic. *)
-Theorem validated_never_panics_xibc_proposal : forall now s p,
-  xprop_validate p = Ok tt -> handle_xprop now head_strict s p <> Panic.
+Theorem validated_never_panics_xibc_proposal : forall now native s p,
+  xprop_validate p = Ok tt -> handle_xprop now head_strict native s p <> Panic.
 Proof. exact handle_xprop_strict_safe. Qed.
 Print Assumptions validated_never_panics_xibc_proposal.
 
@@ -23,59 +23,93 @@ Print Assumptions validated_never_panics_xibc_proposal.
     bsc-upgrade-malformed-signer-key, found by this check) the statement needed the state invariant
     "every key under the recentSingers prefix has a separator", which the handlers keep but a validated
     genesis can break (Refuted/C15_refuted.v). *)
-Theorem validated_never_panics_xibc_proposal_old_parser : forall now s p,
+Theorem validated_never_panics_xibc_proposal_old_parser : forall now native s p,
   xprop_validate p = Ok tt -> xstate_wf s ->
-  handle_xprop now false s p <> Panic /\ (forall s', handle_xprop now false s p = Ok s' -> xstate_wf s').
+  handle_xprop now false native s p <> Panic /\ (forall s', handle_xprop now false native s p = Ok s' -> xstate_wf s').
 Proof.
-  intros now s p Hv Hwf. pose proof (handle_xprop_safe now s p Hv Hwf) as H. split.
+  intros now native s p Hv Hwf. pose proof (handle_xprop_safe now native s p Hv Hwf) as H. split.
   - eapply osafe_not_panic; exact H.
   - intros s' E. rewrite E in H. exact H.
 Qed.
 Print Assumptions validated_never_panics_xibc_proposal_old_parser.
 
 (** The four handlers separately (same statement restricted to one proposal type). *)
-Theorem validated_never_panics_create_client : forall now s t d chain cs k,
-  xprop_validate (PCreate t d chain cs k) = Ok tt -> handle_xprop now head_strict s (PCreate t d chain cs k) <> Panic.
+Theorem validated_never_panics_create_client : forall now native s t d chain cs k,
+  xprop_validate (PCreate t d chain cs k) = Ok tt -> handle_xprop now head_strict native s (PCreate t d chain cs k) <> Panic.
 Proof. intros. eapply validated_never_panics_xibc_proposal; eassumption. Qed.
 Print Assumptions validated_never_panics_create_client.
 
-Theorem validated_never_panics_upgrade_client : forall now s t d chain cs k,
-  xprop_validate (PUpgrade t d chain cs k) = Ok tt -> handle_xprop now head_strict s (PUpgrade t d chain cs k) <> Panic.
+Theorem validated_never_panics_upgrade_client : forall now native s t d chain cs k,
+  xprop_validate (PUpgrade t d chain cs k) = Ok tt -> handle_xprop now head_strict native s (PUpgrade t d chain cs k) <> Panic.
 Proof. intros. eapply validated_never_panics_xibc_proposal; eassumption. Qed.
 Print Assumptions validated_never_panics_upgrade_client.
 
-Theorem validated_never_panics_toggle_client : forall now s t d chain cs k,
-  xprop_validate (PToggle t d chain cs k) = Ok tt -> handle_xprop now head_strict s (PToggle t d chain cs k) <> Panic.
+Theorem validated_never_panics_toggle_client : forall now native s t d chain cs k,
+  xprop_validate (PToggle t d chain cs k) = Ok tt -> handle_xprop now head_strict native s (PToggle t d chain cs k) <> Panic.
 Proof. intros. eapply validated_never_panics_xibc_proposal; eassumption. Qed.
 Print Assumptions validated_never_panics_toggle_client.
 
 (** RegisterRelayer stores the relayer under its address: the handler panics on an EMPTY address (prefix store:
     "key is nil"); ValidateBasic excludes it because sdk.AccAddressFromBech32 refuses blank strings - for every
     answer [dec] of the bech32 decoder. *)
-Theorem validated_never_panics_register_relayer : forall now s t d a dec chains n,
-  xprop_validate (PRelayer t d a dec chains n) = Ok tt -> handle_xprop now head_strict s (PRelayer t d a dec chains n) <> Panic.
+Theorem validated_never_panics_register_relayer : forall now native s t d a dec chains n,
+  xprop_validate (PRelayer t d a dec chains n) = Ok tt -> handle_xprop now head_strict native s (PRelayer t d a dec chains n) <> Panic.
 Proof. intros. eapply validated_never_panics_xibc_proposal; eassumption. Qed.
 Print Assumptions validated_never_panics_register_relayer.
 
 (** ... and the guard is needed: without validation the handler does panic (the theorem above is not true by
     construction of the model). *)
-Example register_relayer_unvalidated_panics : forall now s,
-  handle_xprop now head_strict s (PRelayer (B "t") 1 [] false [B "chain-a"] 1) = Panic /\
+Example register_relayer_unvalidated_panics : forall now native s,
+  handle_xprop now head_strict native s (PRelayer (B "t") 1 [] false [B "chain-a"] 1) = Panic /\
   xprop_validate (PRelayer (B "t") 1 [] true [B "chain-a"] 1) = Err.
 Proof. intros. split; reflexivity. Qed.
 
+(** a9e74e1: a CreateClient proposal for the chain's OWN name is refused (ordinary error) - also when the name was
+    never set: Keeper.GetChainName then returns the empty string, which no validated chain name equals. *)
+Theorem create_client_own_name_refused : forall now native s t d cs k,
+  xprop_validate (PCreate t d native cs k) = Ok tt -> handle_xprop now head_strict native s (PCreate t d native cs k) = Err.
+Proof.
+  intros now native s t d cs k _. unfold handle_xprop, handle_xprop_gen. cbn [negb andb].
+  rewrite (proj2 (bytes_eqb_eq native native) eq_refl). reflexivity.
+Qed.
+Print Assumptions create_client_own_name_refused.
+
+Theorem unset_chain_name_never_matches : forall t d chain cs k,
+  xprop_validate (PCreate t d chain cs k) = Ok tt -> chain <> [].
+Proof.
+  intros t d chain cs k H E. subst. cbn in H. unfold client_prop_validate in H.
+  destruct (is_wrong cs || is_wrong k); [discriminate|]. destruct (negb (abstract_ok t d)); [discriminate|].
+  cbn in H. discriminate.
+Qed.
+Print Assumptions unset_chain_name_never_matches.
+
+(** aa5560b: ETH Initialize / UpgradeState compare the consensus state's root with the header's state root
+    (checkConsensusRoot); the comparison converts the header (header.ToEthHeader() -> BytesToBloom), which cannot
+    panic for a validated client state - for EVERY consensus state - and a differing root is an ordinary error. *)
+Theorem eth_check_consensus_root_never_panics : forall hd tr k,
+  validate_eth hd tr = Ok tt -> eth_check_root hd k <> Panic.
+Proof. intros hd tr k Hv. eapply osafe_not_panic. eapply eth_check_root_safe; exact Hv. Qed.
+Print Assumptions eth_check_consensus_root_never_panics.
+
+(** ... and without the validation it can (the guard is needed: bloom of 257 bytes). *)
+Example eth_check_consensus_root_unvalidated_panics :
+  eth_check_root {| hd_height := mkH 0 0; hd_extra_len := 0; hd_mix := []; hd_uncle := []; hd_root := []; hd_diff := [];
+                    hd_bloom_len := 257; hd_nonce_len := 0; hd_gas_limit := 1; hd_gas_used := 0 |} (ConsETH 1 []) = Panic.
+Proof. reflexivity. Qed.
+
 (** Whole histories: from ANY module state, any sequence of validated proposals executed the way
     gov.EndBlocker does (state kept on success, discarded on error, no recover) runs to the end. *)
-Theorem validated_history_never_halts : forall now ps s,
-  (forall p, In p ps -> xprop_validate p = Ok tt) -> exists s', run_gov_head now s ps = Ok s'.
+Theorem validated_history_never_halts : forall now native ps s,
+  (forall p, In p ps -> xprop_validate p = Ok tt) -> exists s', run_gov_head now native s ps = Ok s'.
 Proof. exact run_gov_head_safe. Qed.
 Print Assumptions validated_history_never_halts.
 
 (** InitGenesis of a validated xibc genesis followed by any sequence of validated proposals: the state the
-    handlers find is the one InitGenesis wrote ([gx_state], compared with the real stores by the correspondence). *)
+    handlers find is the one InitGenesis wrote ([gx_state] and the chain's own name [gx_native], compared with the
+    real stores by the correspondence). *)
 Theorem validated_genesis_then_history_never_halts : forall now g ps,
   gx_validate g = Ok tt -> (forall p, In p ps -> xprop_validate p = Ok tt) ->
-  gx_init g = Ok tt /\ exists s', run_gov_head now (gx_state g) ps = Ok s'.
+  gx_init g = Ok tt /\ exists s', run_gov_head now (gx_native g) (gx_state g) ps = Ok s'.
 Proof. intros now g ps Hg Hp. split; [eapply gx_init_safe; [exact Hg | left; reflexivity] | apply run_gov_head_safe; exact Hp]. Qed.
 Print Assumptions validated_genesis_then_history_never_halts.
 
@@ -177,15 +211,15 @@ Proof. vm_compute. reflexivity. Qed.
 Print Assumptions C15_panic_sites_covered.
 
 (** ** The executable monitor accepts every step of the model. *)
-Theorem C15_monitor_sound : forall now s p i,
-  mon_steps i [(oclass (xprop_validate p), oclass (handle_xprop now head_strict s p))] = [].
+Theorem C15_monitor_sound : forall now native s p i,
+  mon_steps i [(oclass (xprop_validate p), oclass (handle_xprop now head_strict native s p))] = [].
 Proof. intros; apply mon_steps_sound_x_strict. Qed.
 Print Assumptions C15_monitor_sound.
 
 (** ** Non-vacuity: validated proposals of all four client types exist, and a history that creates,
     upgrades and toggles clients runs through in the model. *)
 Definition ex_header (h : N) (extra : N) : header :=
-  {| hd_height := mkH 0 h; hd_extra_len := extra; hd_mix := []; hd_uncle := uncle_hash; hd_diff := [x02];
+  {| hd_height := mkH 0 h; hd_extra_len := extra; hd_mix := []; hd_uncle := uncle_hash; hd_root := B "state-root"; hd_diff := [x02];
      hd_bloom_len := 256; hd_nonce_len := 8; hd_gas_limit := 30000000; hd_gas_used := 1 |}.
 Definition ex_tm : client_state := CsTM (B "testchain-1") 1 3 1209600000000000 1814400000000000 10000000000 (mkH 1 10) 2.
 Definition ex_bsc : client_state := CsBSC (ex_header 200 137) 56 200 1000 true.
@@ -197,17 +231,17 @@ Example C15_nonvacuous :
              PUpgrade (B "t") 1 (B "chain-a") (AnyVal ex_tm) (AnyVal (ConsTM 1700000000));
              PToggle (B "t") 1 (B "chain-a") (AnyVal ex_bsc) (AnyVal (ConsBSC 5));
              PUpgrade (B "t") 1 (B "chain-a") (AnyVal ex_bsc) (AnyVal (ConsBSC 6));
-             PToggle (B "t") 1 (B "chain-a") (AnyVal ex_eth) (AnyVal (ConsETH 7));
+             PToggle (B "t") 1 (B "chain-a") (AnyVal ex_eth) (AnyVal (ConsETH 7 (B "state-root")));
              PToggle (B "t") 1 (B "chain-a") (AnyVal ex_tss) (AnyVal ConsTSS);
              PRelayer (B "t") 1 (B "teleport1qyqszqgpqyqszqgpqyqszqgpqyqszqgp5qvjlt") true [B "chain-a"] 1] in
   forallb (fun p => Nat.eqb (oclass (xprop_validate p)) 0) ps = true /\
-  match run_gov_head 1767225600 [] ps with
+  match run_gov_head 1767225600 (B "teleport") [] ps with
   | Ok s => option_map client_type (c_client (xget s (B "chain-a"))) = Some TTSS
   | _ => False
   end /\
   (* every step really executed (returned Ok, not a swallowed Err) *)
   forallb (fun n => Nat.eqb n 0)
     (fst (fold_left (fun acc p => let '(l, s) := acc in
-                       match handle_xprop 1767225600 head_strict s p with Ok s' => (l ++ [0%nat], s') | _ => (l ++ [1%nat], s) end)
+                       match handle_xprop 1767225600 head_strict (B "teleport") s p with Ok s' => (l ++ [0%nat], s') | _ => (l ++ [1%nat], s) end)
                     ps ([], []))) = true.
 Proof. vm_compute. repeat split; reflexivity. Qed.
